@@ -716,6 +716,17 @@ def _angles(ctx, only=None):
                    _circ(ib[0], mb[k][0]) * abs(math.sin(math.radians(colat))) <= 3.6e-7) and not any(v != v for v in ib + mb[k])
             if not okb and not (all(v != v for v in ib) and all(v != v for v in mb[k])):
                 ctx.disagree('x2a', c, ib, mb[k])
+        # documented signatures angles_to_x(points, latitude=False) / x_to_angles(points, latitude=False): positional = keyword
+        try:
+            xp = angles_to_x(a, lat)
+            bp = x_to_angles(x, lat)
+            if not (np.array_equal(np.asarray(xp), x, equal_nan=True) and np.array_equal(np.asarray(bp), back, equal_nan=True)):
+                ctx.violate('angles:positional-latitude-differs',
+                            'angles_to_x(p, %s) / x_to_angles(x, %s) differ from the latitude=%s keyword calls' % (lat, lat, lat),
+                            {'stream': 'angles', 'lat': lat, 'p': [list(q) for q in a[:3].tolist()]})
+        except Exception as e:
+            ctx.violate('angles:positional-latitude-exception', 'positional latitude argument raises %r' % (e,),
+                        {'stream': 'angles', 'lat': lat, 'p': [list(q) for q in a[:3].tolist()]})
         # the answer for one point must not depend on how many points are passed in one call (1..5 rows, 1-D single point)
         for nb in (1, 2, 3, 4, 5):
             for start in range(0, min(len(p), 40), nb):
